@@ -177,6 +177,12 @@ pub fn gen_opt_tree(r: &mut Rng, depth: u32, ill: bool) -> E {
         for _ in 0..(2 + r.below(3)) { e = E::Binary { left: Box::new(e), right: Box::new(atom(r)), operator: op }; }
         return e;
     }
+    // a pure call with literal arguments whose RESULT is not equal to itself (NaN, or an array holding one): "fold it again and compare" never settles
+    if r.chance(1, 40) {
+        let nan = E::Literal { value: V::Number(f64::NAN) };
+        return match r.below(4) { 0 => E::Call { name: "first".into(), params: vec![nan] }, 1 => E::Call { name: "opt".into(), params: vec![E::Literal { value: V::Number(1.0) }, nan] },
+            2 => E::Call { name: "last".into(), params: vec![E::Literal { value: V::Boolean(true) }, E::Literal { value: V::Array(vec![V::Number(f64::NAN)]) }] }, _ => E::Call { name: "if_then".into(), params: vec![E::Literal { value: V::Boolean(true) }, nan] } };
+    }
     // a variadic call with 100+ literal arguments (arity limits)
     if r.chance(1, 60) {
         let k = 95 + r.below(40);
